@@ -107,7 +107,7 @@ SyncX ==
 
 TNextX == /\ l <= Len(Rec)
           /\ l' = l + 1
-          /\ (Reset \/ Skip \/ LocalX \/ DeliverX \/ SvOfUpdate \/ SyncX \/ Nondet)
+          /\ (Reset \/ Skip \/ LocalX \/ DeliverX \/ SvOfUpdate \/ SyncX \/ Nondet \/ Crash)
 
 TSpecX == TInit /\ [][TNextX]_vars
 =============================================================================
